@@ -1799,6 +1799,8 @@ int tls_recv(TLS_CONNECT *conn, uint8_t *out, size_t outlen, size_t *recvlen)
 		case TLS_record_application_data:
 			break;
 		case TLS_record_change_cipher_spec:
+			// not application data: a later tls_recv() must not hand it out
+			conn->datalen = 0;
 			error_print();
 			return -1;
 		case TLS_record_alert:
@@ -1807,6 +1809,7 @@ int tls_recv(TLS_CONNECT *conn, uint8_t *out, size_t outlen, size_t *recvlen)
 			int level;
 			int alert;
 			tls_record_get_alert(conn->databuf, &level, &alert);
+			conn->datalen = 0;
 			if (alert == TLS_alert_close_notify) {
 				tls_trace("recv Alert.close_notify\n");
 				return 0;
@@ -1815,6 +1818,7 @@ int tls_recv(TLS_CONNECT *conn, uint8_t *out, size_t outlen, size_t *recvlen)
 			return -1;
 			}
 		default:
+			conn->datalen = 0;
 			error_print();
 			return -1;
 		}
